@@ -426,6 +426,9 @@ func (r *cliRunner) close() {
 	e.OutSched = &SchedRec{Seed: 0, PreemptP: s.PreemptP, Choices: s.Choices, Preempts: s.Preempts}
 	e.Stats.Yields += int64(s.Yields)
 	e.Stats.Decisions += int64(s.Decisions)
+	if s.Switches > 1 {
+		e.Stats.Interleave[s.Signature()] = true
+	}
 	for i, n := range s.Cover {
 		if n > 0 && i < len(e.Cover) {
 			e.Cover[i] += n
